@@ -31,6 +31,17 @@ def q32(n):
     return list(int(n).to_bytes(4, 'big'))
 
 
+def _nonull(o):
+    """TLC's Json module cannot read null: send the string "null" instead."""
+    if o is None:
+        return 'null'
+    if isinstance(o, dict):
+        return {k: _nonull(v) for k, v in o.items()}
+    if isinstance(o, (list, tuple)):
+        return [_nonull(v) for v in o]
+    return o
+
+
 def load_known():
     out = []
     if os.path.exists(KNOWN_FILE):
@@ -93,7 +104,7 @@ class Ctx(object):
         name = name or ('trace-%d' % len(self.models))
         path = os.path.join(self.work, name + '.json')
         with open(path, 'w') as f:
-            json.dump(doc, f, separators=(',', ':'))
+            json.dump(_nonull(doc), f, separators=(',', ':'))
         kw.setdefault('workers', 1)
         env = dict(kw.pop('env', {}) or {})
         env['TRACE_FILE'] = path
